@@ -615,10 +615,10 @@ def _run(ctx, T):
                     ctx.violation("grid:size-changes-result", "C14: %s differs at mem=%d stack=%d" % (WITNESS[key], r["mem"], r["stack"]),
                                   {"program": open(w["src"]).read(), "observed": brief(r)})
                 continue
-            if r["mem"] == 1:
-                k = "heap:mem-size-1"
-            elif r["nilcell"]:
+            if r["nilcell"]:
                 k = "heap:write-before-oom-check"
+            elif r["mem"] == 1:
+                k = "heap:mem-size-1"
             elif r["last_op"] >= 0 and any(T.names.index(IRR_OPNAME[i]) == r["last_op"] and variant[i] == "pinned" for i in IRR):
                 k = "stack-write-before-check:" + [i for i in IRR if T.names.index(IRR_OPNAME[i]) == r["last_op"]][0]
             else:
